@@ -7,6 +7,7 @@ CONSTANTS
     Tier = "quick"
     NanRule = "notconverged"
     FluxRule = "stale"
+    ScanNorm = "asked"
     Reporter = "contract"
     EmitOn = FALSE
 INIT Init
